@@ -56,6 +56,12 @@ CLAIMED["C05"] = dict(text="Bounded symbolic model checking of the real placemen
                   "force summed over exactly the non-excluded residues of all trees) with symbolic neighbour distances, and the start on a grid point.",
              design="DESIGN.md 4/C05", technique="symbolic execution of the real Python code with z3 (symx): QF_NRA obligations for the step, symbolic booleans for the acceptance logic, contract stub for the KD-tree query",
              note="scipy's sparse_distance_matrix replaced by its contract; step <= half the shortest box edge assumed; boxes from a catalogue; reals not floats; the lemmas compose through the real control flow of update_positions (read, not executed end to end). " + NOTE_COMMON)
+CLAIMED["C06"] = dict(text="Bounded symbolic model checking over symbolic reals of the real _rotate_xyz/_matrix_multiplication (R^T R = I, det R = 1, R = Rz Ry Rx, "
+                  "rotate(X) = R X for generic X) with abstract (cos, sin) pairs, of the real Backmap/orient_template on molecules from the real reader with "
+                  "symbolic centred templates, residue positions, factor and three arbitrary optimiser angles (centre of geometry, every pair distance, "
+                  "signed volume, own-atom-name mapping, congruent second copy, templates unchanged), and of map_from_CoG.",
+             design="DESIGN.md 4/C06", technique="symbolic execution of the real Python code with z3 (symx), QF_NRA obligations decided by fresh solvers on the cone of influence",
+             note="scipy.optimize.minimize replaced by three arbitrary angles (covers every optimiser outcome), np.random.uniform by zeros, float64 allocations by object arrays; templates of <= 4 atoms; reals not floats. " + NOTE_COMMON)
 NOT_YET = {}
 def main():
     props = [json.loads(l) for l in open(os.path.join(ROOT, "properties.jsonl"))]
